@@ -2,6 +2,7 @@ package proj
 
 import (
 	"fmt"
+	"strconv"
 	"strings"
 )
 
@@ -50,7 +51,7 @@ type JSONCheck struct {
 }
 
 type Composite struct {
-	Name   string     `json:"name"`
+	Name   string      `json:"name"`
 	Fields [][2]string `json:"fields"`
 }
 
@@ -61,7 +62,7 @@ type Schema struct {
 	Checks     []TableCheck `json:"checks"`
 	JSONChecks []JSONCheck  `json:"jsonchecks"`
 	Composites []Composite  `json:"composites"`
-	Other      []string     `json:"other"` // every other statement, tokens joined by one space
+	Other      []string     `json:"other"`      // every other statement, tokens joined by one space
 	Statements [][]string   `json:"statements"` // every statement that is not CREATE TABLE / TYPE / FUNCTION, as tokens
 	Functions  []string     `json:"functions"`
 }
@@ -74,7 +75,11 @@ func joinToks(ts []Tok) string {
 			if q == "" {
 				q = "'"
 			}
-			parts[i] = q + t.V + q
+			if q == "'" {
+				parts[i] = q + strings.ReplaceAll(t.V, q, q+q) + q // an SQL literal: the quote is doubled inside
+			} else {
+				parts[i] = strconv.Quote(t.V) // Dart / Go spelling
+			}
 		} else {
 			parts[i] = t.V
 		}
